@@ -592,7 +592,7 @@ func rndMultisig(g *Gen) []byte {
 func genScript(g *Gen) {
 	r := g.Rng
 	pk := func(class string, s []byte) {
-		if g.N%256 == 0 {
+		if g.N%16 == 0 {
 			g.Reset() // histories are single ops; short histories keep the check's bookkeeping linear
 		}
 		g.Op(class, "pk %s", hexTok(s))
